@@ -35,7 +35,8 @@ def sim_for(par, simcfg):
     wrong = {"other": "other-router", "prefix": "rout", "longer": "router2", "case": "ROUTER", "suffix": "xrouter"}
     sim["hostname"] = "router" if par["nameOK"] else wrong[par.get("namevar", "other")]
     if typ in S.HTTPS_TYPES:
-        sim["marker"] = par["marker"] != "absent"
+        sim["marker"] = par["marker"] not in ("absent", "partial")
+        sim["marker2"] = par["marker"] != "absent"          # the display-name of the second vsys
         sim["ha"] = par["ha"]
     else:
         sim["banner"] = "" if par["marker"] == "absent" else "managed by NetSPoC"
@@ -143,7 +144,7 @@ def plan_sessions(prop, tier, pars):
     """Which (par, fault positions) to run for the property."""
     jobs = []   # (par, 'faults' | 'plain')
     for p in pars:
-        bad = (not p["nameOK"]) or p["marker"] == "absent" or p["ha"] in ("passive", "suspended")
+        bad = (not p["nameOK"]) or p["marker"] in ("absent", "partial") or p["ha"] in ("passive", "suspended")
         if prop == "C06":
             if p["verb"] == "approve":
                 if not p["nameOK"]:
